@@ -455,6 +455,18 @@ def observe(recipe, backend):
                             % (svals[:4], last, got_vals[:4], want_vals[:4]))
                 except (ValueError, OverflowError):
                     pass
+            # C06 for numbers: a coercion between numeric types keeps every value (3+1e-12j is not 3; 1e300 is not INT_MIN)
+            if coerced and recipe["values"] and all(v[0] in ("int", "float", "complex", "bool") for v in recipe["values"]):
+                try:
+                    orig = [v.item() if hasattr(v, "item") else v for v in list(x)]
+                    got_n = [v.item() if hasattr(v, "item") else v for v in list(data)]
+                    if len(orig) == len(got_n):
+                        bad = [(o, g) for o, g in zip(orig, got_n) if o == o and g == g and not (g == o)]
+                        if bad:
+                            add("C06", "numeric-values:%s" % key, "numbers %s were cast to %s along %s" % (
+                                [repr(b[0]) for b in bad[:3]], [repr(b[1]) for b in bad[:3]], key))
+                except Exception:
+                    pass
             try:
                 n_in, n_out = len(x), len(data)
                 if n_in != n_out:
